@@ -21,6 +21,7 @@ func literalSiblingRule(c *Ctx, rule string, minGroups int) {
 		pos  token.Pos
 		fn   string
 		keys []string
+		src  map[string]string // key → "Type.field" when the value is a (converted) field selector
 	}
 	groups := map[string][]lit{}
 	for _, pkg := range p.Mod {
@@ -62,6 +63,7 @@ func literalSiblingRule(c *Ctx, rule string, minGroups int) {
 						continue
 					}
 					var keys []string
+					var srcs map[string]string
 					keyed := true
 					for _, el := range cl.Elts {
 						kv, ok := el.(*ast.KeyValueExpr)
@@ -71,6 +73,24 @@ func literalSiblingRule(c *Ctx, rule string, minGroups int) {
 						}
 						if id, ok := kv.Key.(*ast.Ident); ok {
 							keys = append(keys, id.Name)
+							v := ast.Unparen(kv.Value)
+							for {
+								ce, isCall := v.(*ast.CallExpr)
+								if !isCall || len(ce.Args) != 1 || !info.Types[ce.Fun].IsType() {
+									break
+								}
+								v = ast.Unparen(ce.Args[0]) // a conversion
+							}
+							if se, isSel := v.(*ast.SelectorExpr); isSel {
+								if sel := info.Selections[se]; sel != nil && sel.Kind() == types.FieldVal {
+									if bn := namedOf(sel.Recv()); bn != nil {
+										if srcs == nil {
+											srcs = map[string]string{}
+										}
+										srcs[id.Name] = bn.Obj().Name() + "." + se.Sel.Name
+									}
+								}
+							}
 						}
 					}
 					if !keyed || len(keys) == 0 {
@@ -85,7 +105,7 @@ func literalSiblingRule(c *Ctx, rule string, minGroups int) {
 						}
 					}
 					gk := named.Obj().Name() + " passed to " + callee + "@" + itoa(ai)
-					groups[gk] = append(groups[gk], lit{cl.Pos(), encl, keys})
+					groups[gk] = append(groups[gk], lit{cl.Pos(), encl, keys, srcs})
 				}
 				return true
 			})
@@ -131,6 +151,48 @@ func literalSiblingRule(c *Ctx, rule string, minGroups int) {
 			}
 			perFn[l.fn]++
 			c.Check(rule, key, l.pos, len(missing) == 0, "this literal omits field(s) "+strings.Join(missing, ", ")+" that the sibling call site(s) of the same callee set: the two entry points hand different level/context information to the shared implementation")
+		}
+	}
+	// the sibling literals of a group take each field from the same source field
+	for _, gk := range gks {
+		lits := groups[gk]
+		if len(lits) < 2 {
+			continue
+		}
+		keysSeen := map[string]bool{}
+		for _, l := range lits {
+			for k := range l.src {
+				keysSeen[k] = true
+			}
+		}
+		var ks []string
+		for k := range keysSeen {
+			ks = append(ks, k)
+		}
+		sort.Strings(ks)
+		for _, k := range ks {
+			ref, refFn := "", ""
+			agree := true
+			var seen []string
+			count := 0
+			for _, l := range lits {
+				s, ok := l.src[k]
+				if !ok {
+					continue
+				}
+				count++
+				seen = append(seen, s+" in "+l.fn)
+				if ref == "" {
+					ref, refFn = s, l.fn
+				} else if s != ref && s[:strings.Index(s, ".")] == ref[:strings.Index(ref, ".")] {
+					agree = false
+				}
+			}
+			_ = refFn
+			if count < 2 {
+				continue
+			}
+			c.Check(rule, gk+": field "+k+" comes from the same source field at every call site", lits[0].pos, agree, "the sibling call sites of one callee fill "+k+" from different fields of the same struct ("+strings.Join(seen, "; ")+"): the two entry points hand different level/context information to the shared implementation, so the same value is shredded differently depending on how it was handed over")
 		}
 	}
 	c.Stats[rule+".literal_groups"] = n
